@@ -42,8 +42,9 @@ FLOWIR_ONLY = {
 
 RULE = ('The component option table is derived at run time from FlowIR.type_flowir_component("full") + '
         'default_component_structure(); for every option leaf every value of a fixed candidate pool that the leaf '
-        'schema accepts and that differs from the default (literals of each type, tricky strings, None, lists, and '
-        '"%%(cvar)s" variable references) is set (a) on the component, (b) in the global blueprint, (c) in the stage '
+        'schema accepts, that differs from the default and that gives a valid workflow (literals of each type, tricky '
+        'strings, None, lists, and "%%(cvar)s" variable references; quick tier: the first 6 literals + 2 variable '
+        'references per option) is set (a) on the component, (b) in the global blueprint, (c) in the stage '
         'blueprint; plus all pairs of options inside one top-level section; plus families: variables (7 names x 20 '
         'values x 6 scopes), environments (names x bodies, SANDBOX application-dependencies / virtualenvs), reference '
         'lists, status-report and output sections, instances generated for a non-default platform. Each document is '
@@ -208,7 +209,7 @@ def judge(col, case):
                         with open(variable_files[0], 'w') as f:
                             f.write(USER_VARIABLES)
                     c1 = experiment.model.conf.DOSINIExperimentConfiguration(
-                        d, platform, variable_files, {}, is_instance=False, createInstanceFiles=False)
+                        d, platform, variable_files, {}, is_instance=False, createInstanceFiles=False, primitive=False)
                     # the package itself must be a valid workflow that resolves (else it is not in the judged space)
                     inst = c1.get_unreplicated_flowir().instance(**INSTANCE_FLAGS)
                     want = observe(inst)
@@ -230,7 +231,7 @@ def judge(col, case):
                 Dosini._dump_output(copy.deepcopy(inst), conf_dir)
             else:
                 c1 = experiment.model.conf.DOSINIExperimentConfiguration(
-                    d, platform, variable_files, {}, is_instance=False, createInstanceFiles=True)
+                    d, platform, variable_files, {}, is_instance=False, createInstanceFiles=True, primitive=False)
                 want = observe(c1.get_unreplicated_flowir().instance(**INSTANCE_FLAGS))
             stage = 'loading'
             loaded = Dosini().load_from_directory(conf_dir, [], {}, is_instance=True, out_errors=errors)
@@ -337,11 +338,11 @@ def _is_var(c):
     return isinstance(c, (tuple, list)) and len(c) == 2 and c[0] in ('VAR', 'VARLIST')
 
 
-def picks(viable, n):
-    """first literal, first variable reference, then further literals: n diverse candidates"""
-    lit = [c for c in viable if not _is_var(c)]
-    var = [c for c in viable if _is_var(c)]
-    out = lit[:1] + var[:1] + lit[1:]
+def picks(viable, n, nlit=None, nvar=1):
+    """first literal, first variable reference(s), then further literals: n diverse candidates"""
+    lit = [c for c in viable if not _is_var(c)][:nlit]
+    var = [c for c in viable if _is_var(c)][:nvar]
+    out = lit[:1] + var + lit[1:]
     return out[:n]
 
 
@@ -441,8 +442,10 @@ def run(ctx):
 
     cases = [{'family': 'base'}]
     # every valid value of every option, set on the component / through the global blueprint / the stage blueprint
+    # (quick: at most 6 literals + 2 variable references per option, in pool order; thorough: all of them)
     for d, _ in table:
-        for cand in viable[d]:
+        singles = viable[d] if ctx.thorough else picks(viable[d], 99, nlit=6, nvar=2)
+        for cand in singles:
             for via in ('component', 'global-blueprint', 'stage-blueprint'):
                 cases.append({'family': 'option', 'settings': [[d, cand]], 'via': via})
     # pairs of options inside one top-level section
